@@ -177,6 +177,11 @@ func loadProgram(dir string, patterns []string, tags string) (*Program, error) {
 				return nil, fmt.Errorf("%s: ghost func %s: %v", cf.File, g.Name, err)
 			}
 			g.Ret = t
+			if prev, dup := p.ghostFuncs[g.Name]; dup && prev != g && prev.PkgPath != g.PkgPath && (prev.BodyS != g.BodyS || strings.Join(prev.PTypes, ",") != strings.Join(g.PTypes, ",")) {
+				// ghost functions are global by name: a second, different definition would silently replace the first one in
+				// the contracts of the other package
+				return nil, fmt.Errorf("%s: ghost func %s is also defined in the contracts of %s (names of ghost functions are global: rename one)", cf.File, g.Name, prev.PkgPath)
+			}
 			p.ghostFuncs[g.Name] = g
 		}
 		for _, m := range cf.Monitors {
